@@ -214,7 +214,7 @@ func valHash(v Value) uint64 {
 	case Int:
 		return mix(1, uint64(x))
 	case *Term:
-		return symHash
+		return mix(symHash, uint64(x.ID))
 	case Ptr:
 		return mix(2, uint64(uint32(x.Obj))<<32|uint64(uint32(x.Off)))
 	case Slice:
@@ -254,8 +254,10 @@ func valEq(a, b Value) bool {
 		y, ok := b.(Int)
 		return ok && x == y
 	case *Term:
-		_, ok := b.(*Term)
-		return ok
+		// symbolic cells must hold the very same term: states are merged only
+		// when their symbolic contents are identical functions of the input
+		y, ok := b.(*Term)
+		return ok && x == y
 	case Ptr:
 		y, ok := b.(Ptr)
 		return ok && x == y
